@@ -7,13 +7,8 @@ pub mod spec;
 pub mod statics;
 pub mod store;
 pub mod util;
-#[cfg(kani)]
-mod h_layout;
-#[cfg(kani)]
-mod h_problem;
-#[cfg(kani)]
-mod h_probe2;
-#[cfg(kani)]
-mod h_static;
-#[cfg(kani)]
-mod h_store;
+pub mod h_dynamic;
+pub mod h_layout;
+pub mod h_problem;
+pub mod h_static;
+pub mod h_store;
